@@ -101,6 +101,8 @@ pub struct RunSummary {
     pub plan: Option<Plan>,
     pub notes: Vec<String>,
     pub panics_seen: u64,
+    /// jobs executed earlier on the same worker thread (kept for violating runs only)
+    pub history: Vec<usize>,
 }
 
 fn no_exclusion(_: simtypes::Op, _: &[&[u8]], _: &simtypes::Out, _: &simtypes::Out) -> bool {
@@ -171,6 +173,9 @@ fn swapped_twin(plan: &Plan, env: &Env) -> kernel::rec::Twin {
 }
 
 pub struct BatchOut {
+    pub base_seed: u64,
+    pub tier: Tier,
+    pub jobs: Vec<(usize, u64)>,
     pub summaries: Vec<RunSummary>,
     pub wall_s: f64,
     pub truncated: bool,
@@ -250,6 +255,7 @@ pub fn run_batch(property: &str, tier: Tier, base_seed: u64, classes: &[ClassSpe
             let current = &current;
             hs.push(s.spawn(move || {
                 WORKER_SLOT.with(|c| c.set(t));
+                let mut executed: Vec<usize> = vec![];
                 // std seeds its per-thread hash-map keys from OS entropy on first use: do that now, with the
                 // seam off, so that no run's entropy stream depends on which run happens to be first on a thread
                 let _ = std::collections::hash_map::RandomState::new();
@@ -282,6 +288,8 @@ pub fn run_batch(property: &str, tier: Tier, base_seed: u64, classes: &[ClassSpe
                     };
                     current[t].store(u64::MAX, Ordering::Relaxed);
                     let keep_plan = !rec.violations.is_empty() || i < 2;
+                    let history = if rec.violations.is_empty() { vec![] } else { executed.clone() };
+                    executed.push(j);
                     let sum = RunSummary {
                         job: j,
                         class_idx: ci,
@@ -298,6 +306,7 @@ pub fn run_batch(property: &str, tier: Tier, base_seed: u64, classes: &[ClassSpe
                         plan: if keep_plan { Some(plan) } else { None },
                         notes: rec.notes,
                         panics_seen: rec.panics_seen,
+                        history,
                     };
                     out.lock().unwrap().push(sum);
                     if start.elapsed().as_secs_f64() > wall_cap_s {
@@ -314,7 +323,8 @@ pub fn run_batch(property: &str, tier: Tier, base_seed: u64, classes: &[ClassSpe
     let mut summaries = out.into_inner().unwrap();
     summaries.sort_by_key(|s| s.job);
     let truncated = summaries.len() < jobs.len();
-    BatchOut { summaries, wall_s: start.elapsed().as_secs_f64(), truncated, jobs_total: jobs.len() }
+    let jobs_total = jobs.len();
+    BatchOut { base_seed, tier, jobs, summaries, wall_s: start.elapsed().as_secs_f64(), truncated, jobs_total }
 }
 
 pub fn replay_dir() -> String {
@@ -322,6 +332,19 @@ pub fn replay_dir() -> String {
 }
 
 pub fn write_replay(plan: &Plan, v: &Violation, profile: &str, note: &str) -> String {
+    write_replay_full(plan, v, profile, note, &[], "")
+}
+
+/// run `blsim replay <file>` in a fresh child process; true when it reproduces (exit code 1)
+pub fn reproduces_in_child(path: &str) -> bool {
+    let Ok(exe) = std::env::current_exe() else { return false };
+    match std::process::Command::new(exe).args(["replay", path]).output() {
+        Ok(o) => o.status.code() == Some(1),
+        Err(_) => false,
+    }
+}
+
+pub fn write_replay_full(plan: &Plan, v: &Violation, profile: &str, note: &str, prelude: &[Plan], reproducibility: &str) -> String {
     let dir = replay_dir();
     let _ = std::fs::create_dir_all(&dir);
     let mut h = 0u64;
@@ -329,7 +352,7 @@ pub fn write_replay(plan: &Plan, v: &Violation, profile: &str, note: &str) -> St
         h = h.wrapping_mul(1099511628211).wrapping_add(b as u64);
     }
     let path = format!("{}/{}-{}-{:08x}.json", dir, plan.property, plan.seed, h as u32);
-    let rf = ReplayFile { plan: plan.clone(), expect: v.clone(), profile: profile.to_string(), note: note.to_string() };
+    let rf = ReplayFile { plan: plan.clone(), expect: v.clone(), profile: profile.to_string(), note: note.to_string(), prelude: prelude.to_vec(), reproducibility: reproducibility.to_string() };
     let _ = std::fs::write(&path, serde_json::to_string_pretty(&rf).unwrap());
     path
 }
@@ -381,12 +404,62 @@ pub fn triage(property: &str, batch: &BatchOut, classes: &[ClassSpec], env: &Env
             Some(x) => (min, x.clone()),
             None => (plan, v.clone()),
         };
-        let path = write_replay(
-            &final_plan,
-            &final_v,
-            env.profile,
-            &format!("minimised in {} executions; original seed {}; class {}; key {}", tries, s.seed, classes[s.class_idx].class, key),
-        );
+        let note = format!("minimised in {} executions; original seed {}; class {}; key {}", tries, s.seed, classes[s.class_idx].class, key);
+        // every reported failure must reproduce from its replay file in a FRESH process
+        let mut path = write_replay_full(&final_plan, &final_v, env.profile, &note, &[], "fresh-process");
+        if !reproduces_in_child(&path) {
+            let _ = std::fs::remove_file(&path);
+            let orig = s.plan.clone().expect("violating run keeps its plan");
+            path = write_replay_full(&orig, &v, env.profile, &format!("{} (the minimised plan did not reproduce in a fresh process; this is the original plan)", note), &[], "fresh-process");
+            if !reproduces_in_child(&path) {
+                // the failure depends on state the library kept from earlier runs on that worker thread:
+                // the prelude re-creates it; it is then minimised with fresh child processes
+                let _ = std::fs::remove_file(&path);
+                let gen_job = |j: usize| -> Plan {
+                    let (ci, idx) = batch.jobs[j];
+                    let c = &classes[ci];
+                    let mut p = c.scenario.gen(property, c.class, job_seed(batch.base_seed, property, ci, idx), idx, batch.tier);
+                    if c.twin_mode != 0 {
+                        p.set("twin_mode", c.twin_mode as i64);
+                    }
+                    p
+                };
+                let mut prelude: Vec<Plan> = s.history.iter().map(|j| gen_job(*j)).collect();
+                let hist_note = format!("{}; depends on library state left by {} earlier run(s) on the same thread", note, prelude.len());
+                path = write_replay_full(&orig, &v, env.profile, &hist_note, &prelude, "fresh-process");
+                if reproduces_in_child(&path) {
+                    // ddmin over the prelude, each attempt in a child process (bounded)
+                    let mut attempts = 0;
+                    let mut chunk = (prelude.len() + 1) / 2;
+                    while chunk >= 1 && attempts < 60 {
+                        let mut i = 0;
+                        while i < prelude.len() && attempts < 60 {
+                            let mut cand = prelude.clone();
+                            let end = (i + chunk).min(cand.len());
+                            cand.drain(i..end);
+                            attempts += 1;
+                            let tmp = write_replay_full(&orig, &v, env.profile, "shrinking", &cand, "fresh-process");
+                            let ok = reproduces_in_child(&tmp);
+                            let _ = std::fs::remove_file(&tmp);
+                            if ok {
+                                prelude = cand;
+                            } else {
+                                i += chunk;
+                            }
+                        }
+                        if chunk == 1 {
+                            break;
+                        }
+                        chunk /= 2;
+                    }
+                    let _ = std::fs::remove_file(&path);
+                    path = write_replay_full(&orig, &v, env.profile, &format!("{} (prelude minimised to {} run(s) in {} child executions)", hist_note, prelude.len(), attempts), &prelude, "fresh-process");
+                } else {
+                    let _ = std::fs::remove_file(&path);
+                    path = write_replay_full(&orig, &v, env.profile, &format!("{}; NOT reproducible outside its batch (state shared across worker threads?): rerun the check with VERIF_THREADS=1 and the same VERIF_SEED", note), &[], "batch-context");
+                }
+            }
+        }
         println!("VIOLATION property={} replay={}", property, path);
         println!("  invariant={} detail={}", final_v.invariant, final_v.detail);
         replays.push(path);
